@@ -172,6 +172,89 @@ pub fn carry_witnesses(prefix: &[u8], depth: usize, beam: usize) -> Vec<(Vec<u8>
     best.into_iter().map(|(r, b)| (b, r)).collect()
 }
 
+/// Second model-guided search: inputs on which a carry arrives while the new top byte of `low` is itself 0xFF
+/// (low >= 0x1_FF00_0000 when a byte is shifted out) - a separate branch of the carry logic. Exhaustive over the family
+/// 0^n a 0^i b 0^j c  (a in `firsts`, b and c in 1..=255, i, j <= max_gap), pruned by a necessary condition of the
+/// reference encoder's state before `c` (low 24 bits of `low` >= 0xFE0000 and `range` < 2^25):
+/// the zero runs drive the literal probabilities to the rail so that `range` is just under 2^24 at each shift, `a` and
+/// `b` place the low 24 bits of `low`, `c` supplies the improbable 1-bits right after the shift.
+/// Deterministic; returns up to `want` witnesses.
+pub fn carry_on_ff_top_witnesses(n_zero: usize, firsts: &[u8], max_gap: usize, want: usize) -> Vec<Vec<u8>> {
+    use rayon::prelude::*;
+    let mut m0 = enc::Model::new(3, 0, 2);
+    let mut rc0 = enc::RcEnc::new();
+    for _ in 0..n_zero {
+        m0.enc(&mut rc0, Sym::L(0));
+    }
+    rc0.carry_on_ff_top = 0;
+    let mut found: Vec<(usize, usize, u8, u8, u8, Option<u8>)> = firsts
+        .par_iter()
+        .flat_map_iter(|&a| {
+            let mut m = m0.clone();
+            let mut rc = rc0.clone();
+            m.enc(&mut rc, Sym::L(a));
+            let mut hits = Vec::new();
+            for i in 0..=max_gap {
+                for b in 1..=255u8 {
+                    let mut m1 = m.clone();
+                    let mut rc1 = rc.clone();
+                    m1.enc(&mut rc1, Sym::L(b));
+                    for j in 0..=max_gap {
+                        if rc1.carry_on_ff_top > 0 {
+                            break;
+                        }
+                        if (rc1.low & 0xFF_FFFF) >= 0xFE_0000 && rc1.range < 0x0200_0000 {
+                            for c in 1..=255u8 {
+                                let mut m2 = m1.clone();
+                                let mut rc2 = rc1.clone();
+                                m2.enc(&mut rc2, Sym::L(c));
+                                if rc2.carry_on_ff_top == 0 && rc2.low >= 0x1_F000_0000 {
+                                    // the carry is there, the top byte is not yet 0xFF: one more literal
+                                    for d in 1..=255u8 {
+                                        let mut m3 = m2.clone();
+                                        let mut rc3 = rc2.clone();
+                                        m3.enc(&mut rc3, Sym::L(d));
+                                        rc3.flush();
+                                        if rc3.carry_on_ff_top > 0 {
+                                            hits.push((i + j, i, a, b, c, Some(d)));
+                                        }
+                                    }
+                                }
+                                rc2.flush();
+                                if rc2.carry_on_ff_top > 0 {
+                                    hits.push((i + j, i, a, b, c, None));
+                                }
+                            }
+                        }
+                        m1.enc(&mut rc1, Sym::L(0));
+                    }
+                }
+                m.enc(&mut rc, Sym::L(0));
+            }
+            hits
+        })
+        .collect();
+    found.sort();
+    let total = found.len();
+    // spread the kept witnesses over the list (shortest first, then evenly spaced)
+    let mut keep = Vec::new();
+    for k in 0..want.min(total) {
+        keep.push(found[k * total / want.min(total)]);
+    }
+    keep.into_iter()
+        .map(|(ij, i, a, b, c, d)| {
+            let mut v = vec![0u8; n_zero];
+            v.push(a);
+            v.extend(std::iter::repeat(0u8).take(i));
+            v.push(b);
+            v.extend(std::iter::repeat(0u8).take(ij - i));
+            v.push(c);
+            v.extend(d);
+            v
+        })
+        .collect()
+}
+
 pub fn run(tier: Tier) -> i32 {
     let ctx = Ctx::new("C04", "exploration", tier);
     ctx.set_rule("E5 inputs x E3 source fragmentation: all strings over {00, FF, 'a'} up to length L, all strings over the full byte alphabet up to length 2 (3 in thorough), run-structured inputs x^i y^j z^k on a grid up to 4096, LZMA2 chunk-boundary lengths {0,1,65535,65536,65537,131071,131072,131073}; x {WriteToHeader(None), WriteToHeader(Some(len)), SkipWritingToHeader} with the matching decode option; x source cut sets (all <= 2 cuts, all 2^(n-1) for n <= 12, bytewise). Each output must decode to the input with lzma-rs, with the strict reference decoder (marker iff size unknown, code == 0 at the end, exact chunk/index/footer arithmetic) and with liblzma. Byte identity with the reference encoder is not required. distinct_nontrivial = inputs on which the reference range encoder propagated a carry through >= 1 pending 0xFF byte, or that span more than one LZMA2 chunk.");
@@ -227,6 +310,18 @@ pub fn run(tier: Tier) -> i32 {
                         return;
                     }
                     seen_outputs.push(o.out.0);
+                }
+                // a sink that accepts one or two bytes per write must receive the same bytes as one that accepts everything
+                if n <= 4096 {
+                    let plain = run_case(&Case::Enc { fmt, size, input: Hex(input.to_vec()), rd: Rd::default(), sk: Sk::default() });
+                    for chunk in [1usize, 2] {
+                        let case = Case::Enc { fmt, size, input: Hex(input.to_vec()), rd: Rd::default(), sk: Sk { chunk, ..Sk::default() } };
+                        let o = run_case(&case);
+                        if !(o.v.is_ok() && o.out == plain.out) {
+                            ctx.violation(&case, &format!("compressing {} ({} bytes) into a sink that accepts {} byte(s) per write: the same {} bytes as into an unrestricted sink", brief_bytes(input), n, chunk, plain.out.0.len()), &o, None);
+                            return;
+                        }
+                    }
                 }
             }
         }
@@ -321,6 +416,19 @@ pub fn run(tier: Tier) -> i32 {
                     items.push(x);
                 }
             }
+            // second objective: a carry that lands on a 0xFF top byte
+            let mut on_ff = 0usize;
+            for nz in tier.pick(vec![300usize, 448], vec![200usize, 300, 448, 700, 1000]) {
+                let firsts: Vec<u8> = tier.pick(vec![0x01u8, 0x02, 0x04, 0x08, 0x10, 0x20, 0x40, 0x80, 0x03, 0x19, 0x55, 0xFF], (1..=255u8).collect());
+                for b in carry_on_ff_top_witnesses(nz, &firsts, tier.pick(48, 64), 8) {
+                    on_ff += 1;
+                    let mut x = b.clone();
+                    items.push(b);
+                    x.extend_from_slice(&[0x03, 0x04]);
+                    items.push(x);
+                }
+            }
+            ctx.set_extra("inputs_with_a_carry_landing_on_a_0xFF_top_byte", json!(on_ff));
             par_for(items.len() as u64, |ix| {
                 check_input(&items[ix as usize], false, true);
             });
